@@ -180,6 +180,9 @@ func propC15(c *Ctx, r *Report) {
 	r.Clauses = append(r.Clauses, runtimeArrClause)
 	c.runRuntimeArrayShapes(r, "runtimearray.shapes", inPkgs("msl", "glsl", "hlsl", "spirv"))
 	r.floor("runtimearray.shapes", 1)
+	r.Clauses = append(r.Clauses, memberKeyClause)
+	c.runMemberKeyAgree(r, "member.keyagree", "msl/internal/codegen")
+	r.floor("member.keyagree", 5)
 	r.floor("spirv.Block.walkers", 3)
 	r.floor("routing.index-sites", 3)
 	r.floor("hardened.ops", 6)
